@@ -20,7 +20,8 @@ import viewgen
 import vlib
 from vlib import mc, tlc, try_cxx, run_harness, write_ndjson
 
-CONFIGS_QUICK = [("g++", "c++17"), ("clang++", "c++20"), ("g++", "c++11")]
+# clang below C++20 (builtin byteswap path), g++ C++20 (bit_cast path), g++ C++11
+CONFIGS_QUICK = [("clang++", "c++17"), ("g++", "c++20"), ("g++", "c++11")]
 CONFIGS_THOROUGH = [(c, s) for c in ("g++", "clang++") for s in ("c++11", "c++14", "c++17", "c++20", "c++2b")]
 
 INVARIANTS = ["TypeOK", "ImageSizes", "DecodeRefines", "SizesAgree", "StepRefines", "EncodeRefines", "MarginsIntact"]
